@@ -1,11 +1,13 @@
 (** Correspondence for C19: every decoder of the wire model against the
     implementation's UnmarshalJSON on the same generic tree: outcome class
     (0 value, 1 error, 2 panic) and, for values, the decoded value. *)
-From LOV Require Export Wire.Decode Wire.SchemaCodec Corr.Common.
+From LOV Require Export Wire.Decode Wire.SchemaCodec Wire.Messages Corr.Common.
 From Coq Require Import List.
 Import ListNotations.
 
-Inductive target := TSet | TMap | TUuid | TRow | TCond | TMut | TBase | TColTy | TColumn.
+Inductive target := TSet | TMap | TUuid | TRow | TCond | TMut | TBase | TColTy | TColumn
+  (* messages (Wire/Messages.v): the outcome class only, the value is C12's business *)
+  | TRu | TRu2 | TSince | TRes | TMon.
 Record case := mkCase { c_t : target; c_in : gval; c_class : nat; c_out : gval }.
 
 Definition FUEL := 64%nat.
@@ -24,6 +26,11 @@ Definition model_out (t : target) (j : gval) : res gval :=
   | TBase => b <- dec_base j ;; Ok (enc_base b)
   | TColTy => c <- dec_colty j ;; Ok (enc_colty c)
   | TColumn => c <- dec_column j ;; Ok (enc_column c)
+  | TRu => _ <- dec_tables (dec_ru FUEL) j ;; Ok GNull
+  | TRu2 => _ <- dec_tables (dec_ru2 FUEL) j ;; Ok GNull
+  | TSince => _ <- dec_since FUEL j ;; Ok GNull
+  | TRes => _ <- dec_result FUEL j ;; Ok GNull
+  | TMon => _ <- dec_monreq FUEL j ;; Ok GNull
   end.
 
 Definition check (c : case) : nat :=
